@@ -113,7 +113,30 @@ def fam_hae_all(seed, tier):
                                                                   "handler_cases_run": len(take), "handler_domain_exhaustive": len(take) == len(cases)}
 
 
-FAMILIES = {"snap": fam_snap, "healthy": fam_healthy, "core": fam_core, "crash": fam_crash, "reads": fam_reads, "member": fam_member, "member5": fam_member5}
+def fam_lease(seed, i, tier):
+    """lease reads under the timing assumption: every message is delivered within a bound below
+    election timeout - lease duration (300 - 100 ms) or dropped by a partition; one virtual clock"""
+    rng = random.Random(sseed(seed, "lease", i))
+    nv = rng.choice([2, 3, 3, 3, 5])
+    members = rng.random() < 0.35
+    extra = [x for x in IDS if x not in IDS[:nv]][:2] if members else []
+    st = []
+    sc = {"name": "lease-%d-%d" % (seed, i), "family": "lease", "voters": IDS[:nv], "extra": extra, "controlled": False, "auto": True,
+          "latency_us": rng.choice([0, 1000, 20000]), "jitter_us": rng.choice([1000, 50000, 150000]),
+          "heal": True, "heal_et": 60, "stimuli": st,
+          "random": {"seed": sseed(seed, "lease.r", i), "steps": rng.choice([120, 250, 400]), "timed": True, "reads": True,
+                     "crashes": rng.random() < 0.3, "members": members}}
+    if members:
+        # let a leader emerge, then add the extra nodes as non-voters
+        st += [{"op": "adv", "d": 1500}]
+        for x in extra:
+            for v in IDS[:nv]:
+                st.append({"op": "add", "n": v, "id": x, "v": False, "to_ms": 1000})
+            st.append({"op": "adv", "d": 400})
+    return sc
+
+
+FAMILIES = {"lease": fam_lease, "snap": fam_snap, "healthy": fam_healthy, "core": fam_core, "crash": fam_crash, "reads": fam_reads, "member": fam_member, "member5": fam_member5}
 
 # ---- API programs (C18): enumerated by TLC from Api.tla ------------------------------------
 
@@ -241,7 +264,7 @@ def corpus(names):
 def scen_stats(evs):
     st = {"leaders": set(), "crashes": 0, "applies": 0, "appliers": set(), "truncates": 0, "ok_writes": 0, "ok_reads": 0,
           "votes": 0, "cand_terms": {}, "events": len(evs), "restarts": 0, "nonleader_reads": 0, "ae_rejects": 0,
-          "spec_steps": 0, "spec_matched": 0, "spec_drift": 0, "api_calls": 0, "cfg_appends": 0, "healthy_fires": 0, "in_healthy": False, "snaps": 0, "compacts": 0}
+          "spec_steps": 0, "spec_matched": 0, "spec_drift": 0, "api_calls": 0, "cfg_appends": 0, "healthy_fires": 0, "in_healthy": False, "snaps": 0, "compacts": 0, "ok_lease": 0, "blocks": 0}
     for e in evs:
         ev = e["ev"]
         if ev == "status" and e["role"] == 0:
@@ -269,7 +292,11 @@ def scen_stats(evs):
             st["healthy_fires"] += 1
         elif ev == "log_append" and e.get("ctx") == "" and e["entries"] and e["entries"][0]["k"] == 2 and e["entries"][0]["i"] > 1:
             st["cfg_appends"] += 1
+        elif ev == "step" and isinstance(e.get("s"), dict) and e["s"].get("op") == "block":
+            st["blocks"] += 1
         elif ev == "return" and e.get("res") == "ok" and e.get("call") == "submit":
+            if e["kind"] == 2:
+                st["ok_lease"] += 1
             if e["kind"] == 0:
                 st["ok_writes"] += 1
             else:
@@ -298,6 +325,7 @@ RULES = {
     "C09": ("a membership change was appended and a leader change happened", lambda s: s["cfg_appends"] >= 1 and len(s["leaders"]) >= 2),
     "C10": ("a snapshot was taken or installed", lambda s: s["snaps"] >= 1),
     "C11": ("a log compaction or a snapshot installation happened", lambda s: s["compacts"] >= 1),
+    "C17": ("a lease-based read succeeded and a partition or leader change happened", lambda s: s["ok_lease"] >= 1 and (s["blocks"] >= 1 or len(s["leaders"]) >= 2)),
     "C16": ("a healthy period was established and a minority node's timer fired in it", lambda s: s["healthy_fires"] >= 1),
     "C15": ("at heal time some node was down, behind the leader or in a stale term", lambda s: s["crashes"] >= 1 or s["truncates"] >= 1 or len(s["leaders"]) >= 2),
     "C18": ("an API program of at least two calls was executed", lambda s: s["api_calls"] >= 2),
@@ -306,7 +334,7 @@ RULES = {
 # ------------------------------------------------------------------------------------------
 
 PROPS = {
-    "C01": dict(fams=[("core", 3), ("crash", 2)], corpus=["core", "crash"], mc="MC_core3", mc_deep="MC_core3_deep", gen=[("Gen_core3", ["a", "b", "c"], 40)]),
+    "C01": dict(fams=[("core", 3), ("crash", 2), ("snap", 2)], corpus=["core", "crash"], mc="MC_core3", mc_deep="MC_core3_deep", gen=[("Gen_core3", ["a", "b", "c"], 40)]),
     "C02": dict(fams=[("core", 3), ("crash", 2)], corpus=["core", "crash"], mc="MC_core3", mc_deep="MC_core3_deep", gen=[("Gen_core3", ["a", "b", "c"], 40)]),
     "C03": dict(fams=[("core", 4), ("crash", 1)], corpus=["core"], mc="MC_core3", mc_deep="MC_core3_deep", gen=[("Gen_core3", ["a", "b", "c"], 40)]),
     "C04": dict(fams=[("crash", 5)], corpus=["crash"], mc="MC_crash3", mc_deep="MC_crash3_deep"),
@@ -316,12 +344,13 @@ PROPS = {
     "C08": dict(fams=[("core", 2), ("crash", 3)], corpus=["core", "crash"], mc="MC_crash3", mc_deep="MC_crash3_deep"),
     "C14": dict(fams=[("crash", 4), ("snap", 2)], corpus=["crash", "snap"], mc="MC_crash3", mc_deep="MC_crash3_deep"),
     "C09": dict(fams=[("member", 3), ("member5", 3)], corpus=["member"], mc="MC_member", monitor_props=["C01", "C02", "C07", "C09", "C05"]),
-    "C10": dict(fams=[("snap", 6)], corpus=["snap"], mc=None),
-    "C11": dict(fams=[("snap", 6)], corpus=["snap"], mc=None),
+    "C10": dict(fams=[("snap", 6)], corpus=["snap"], mc="MC_snap3", gen=[("Gen_snap3", ["a", "b", "c"], 45)]),
+    "C11": dict(fams=[("snap", 6)], corpus=["snap"], mc="MC_snap3", gen=[("Gen_snap3", ["a", "b", "c"], 45)]),
     "C12": dict(storage=True),
     "C13": dict(storage=True),
     "C15": dict(fams=[("core", 2), ("crash", 2), ("snap", 2)], corpus=["core", "crash", "snap"], mc="MC_core3"),
     "C16": dict(fams=[("healthy", 6)], corpus=["healthy"], mc=None),
+    "C17": dict(fams=[("lease", 6)], corpus=["lease"], mc=None),
     "C18": dict(fams=[("core", 1)], corpus=["api"], api=True, mc=None),
 }
 
